@@ -502,6 +502,9 @@ func (il *inliner) inlineInto(f *ssa.Function) {
 			}
 		}
 		if site == nil {
+			if il.markBoolLocals(f) {
+				il.touched[f] = true
+			}
 			if il.touched[f] {
 				il.simplify(f)
 			}
@@ -943,4 +946,86 @@ func sanityCheck(f *ssa.Function) {
 			}
 		}
 	}
+}
+
+// markBoolLocals finds the shape of `b := x && y; if b { … }` (or `if !b`): a block that holds nothing but φ-nodes, at
+// most a negation of one of them, and the branch on it, where the tested φ merges a short-circuit evaluation (one of
+// its edges is a boolean constant) and is used for nothing else. Written inside the `if`, the same condition is
+// straight control flow; the block is handed to the jump-threading pass (thread.go), which gives it that shape, so
+// that guard and dominance reasoning does not depend on where the programmer wrote the condition down. A negated
+// test is first turned round (`if !b` with its successors exchanged is `if b`).
+func (il *inliner) markBoolLocals(f *ssa.Function) bool {
+	found := false
+	for _, c := range f.Blocks {
+		if il.marked[c] || len(c.Preds) < 2 || len(c.Instrs) < 2 || c == f.Blocks[0] || c == f.Recover {
+			continue
+		}
+		ifi, ok := c.Instrs[len(c.Instrs)-1].(*ssa.If)
+		if !ok || len(c.Succs) != 2 || c.Succs[0] == c.Succs[1] {
+			continue
+		}
+		i := 0
+		for ; i < len(c.Instrs); i++ {
+			if _, ok := c.Instrs[i].(*ssa.Phi); !ok {
+				break
+			}
+		}
+		if i == 0 {
+			continue
+		}
+		rest := c.Instrs[i : len(c.Instrs)-1]
+		var phi *ssa.Phi
+		var not *ssa.UnOp
+		switch len(rest) {
+		case 0:
+			phi, _ = ifi.Cond.(*ssa.Phi)
+		case 1:
+			if u, ok := rest[0].(*ssa.UnOp); ok && u.Op == token.NOT && ifi.Cond == ssa.Value(u) {
+				not = u
+				phi, _ = u.X.(*ssa.Phi)
+			}
+		}
+		if phi == nil || phi.Block() != c {
+			continue
+		}
+		shortCircuit := false
+		for _, e := range phi.Edges {
+			if k, ok := e.(*ssa.Const); ok && k.Value != nil {
+				shortCircuit = true
+			}
+		}
+		if !shortCircuit {
+			continue
+		}
+		// used for nothing but the branch
+		soleUse := func(v ssa.Value, user ssa.Instruction) bool {
+			if v.Referrers() == nil {
+				return false
+			}
+			for _, r := range *v.Referrers() {
+				if _, isDbg := r.(*ssa.DebugRef); isDbg {
+					continue
+				}
+				if r != user {
+					return false
+				}
+			}
+			return true
+		}
+		if not != nil {
+			if !soleUse(phi, not) || !soleUse(not, ifi) {
+				continue
+			}
+			// if !b {A} else {B}  ==  if b {B} else {A}
+			rebuildRefs(ifi, func() { ifi.Cond = phi })
+			dropReferrers(not)
+			c.Instrs = append(c.Instrs[:i:i], c.Instrs[len(c.Instrs)-1])
+			c.Succs[0], c.Succs[1] = c.Succs[1], c.Succs[0]
+		} else if !soleUse(phi, ifi) {
+			continue
+		}
+		il.marked[c] = true
+		found = true
+	}
+	return found
 }
